@@ -41,7 +41,9 @@ func (e *Encoder) clauseInMode(c Clause) bool {
 	return true
 }
 
-func (p *Program) Verify(fn *ssa.Function, fc *FuncContract, mode Mode, primary, dual bool) (enc *Encoder) {
+// Verify encodes fn. seed (may be nil) pre-registers the memory maps a previous pass discovered, so
+// that havoc-with-frame operations emitted early already cover maps first touched later.
+func (p *Program) Verify(fn *ssa.Function, fc *FuncContract, mode Mode, primary, dual bool, seed map[string]string) (enc *Encoder) {
 	e := &Encoder{prog: p, fn: fn, fc: fc, mode: mode, primary: primary, dual: dual, c: NewCtx(mode, p.specs), vals: map[ssa.Value]Val{},
 		pcs: map[*ssa.BasicBlock]string{}, exit: map[*ssa.BasicBlock]*State{}, counts: map[string]int{},
 		labels: map[string]*Env{}, ghost: map[string]Val{}, pkg: fn.Pkg.Pkg,
@@ -58,6 +60,9 @@ func (p *Program) Verify(fn *ssa.Function, fc *FuncContract, mode Mode, primary,
 		}
 	}()
 	c := e.c
+	for k, v := range seed {
+		c.memSorts[k] = v
+	}
 	e.analyzeCFG()
 	st := &State{mem: map[string]string{}, epoch: "0"}
 	c.declare("ctr0", "Int")
@@ -81,6 +86,20 @@ func (p *Program) Verify(fn *ssa.Function, fc *FuncContract, mode Mode, primary,
 		}
 		e.modelVars = append(e.modelVars, ModelVar{Name: par.Name(), Type: par.Type(), Term: n})
 		e.assumeWT(v, "true", st)
+	}
+	// pointers to different types do not alias (Go's type system, absent unsafe)
+	for i, a := range fn.Params {
+		pa, ok := a.Type().Underlying().(*types.Pointer)
+		if !ok {
+			continue
+		}
+		for _, b := range fn.Params[i+1:] {
+			pb, ok := b.Type().Underlying().(*types.Pointer)
+			if !ok || types.Identical(pa.Elem(), pb.Elem()) {
+				continue
+			}
+			c.assume(fmt.Sprintf("(or (= %s lnil) (not (= %s %s)))", e.vals[a].S, e.vals[a].S, e.vals[b].S))
+		}
 	}
 	for _, fv := range fn.FreeVars {
 		v := e.val(fv)
@@ -1167,6 +1186,15 @@ func (e *Encoder) modClause(env *Env, m Expr, p string) (s string, err error) {
 			off := fmt.Sprintf("(soff %s)", v.S)
 			return fmt.Sprintf("(and (is_lelem %s) (= (ebase %s) (sbase %s)) %s %s)", p, p, v.S,
 				c.cmp("<=", intT, off, fmt.Sprintf("(eidx %s)", p)), c.cmp("<", intT, fmt.Sprintf("(eidx %s)", p), c.binopIdx("+", off, fmt.Sprintf("(scap %s)", v.S)))), nil
+		}
+	}
+	if call, ok := m.(*ECall); ok {
+		if id, ok := call.Fun.(*EIdent); ok && id.Name == "object" {
+			root, err := e.objectRoot(env, call.Args[0])
+			if err != nil {
+				return "", err
+			}
+			return fmt.Sprintf("(= (rootof %s) %s)", p, root), nil
 		}
 	}
 	loc, t, ok := env.addr(m)
